@@ -80,6 +80,23 @@ def discharge(ob, axioms, timeout_ms=None, use_cvc5=True, seed=0):
     """Decide pc /\\ axioms |= goal.  Sets ob.status / backend / seconds / model."""
     timeout_ms = timeout_ms or QUICK_TIMEOUT_MS
     t0 = time.time()
+    # stage 0: only the quantifier-free hypotheses (fewer hypotheses: sound).  Arithmetic
+    # obligations (float ranges, rounding bounds) are then pure QF_NIRA and z3 uses nlsat.
+    qf_ax = [a for a in axioms if not _has_quant(a)]
+    qf_pc = [p for p in ob.pc if not _has_quant(p)]
+    if (len(qf_ax) != len(axioms) or len(qf_pc) != len(ob.pc)) and not _has_quant(ob.goal):
+        s0 = z3.Solver()
+        s0.set("timeout", min(FAST_MS, timeout_ms))
+        s0.set("random_seed", seed)
+        for a in qf_ax + qf_pc:
+            s0.add(a)
+        s0.add(z3.Not(ob.goal))
+        if s0.check() == z3.unsat:
+            ob.status = "discharged"
+            ob.backend = "z3"
+            ob.seconds = time.time() - t0
+            ob.reason = "quantifier-free hypotheses suffice"
+            return ob
     s = z3.Solver()
     s.set("random_seed", seed)
     for a in axioms:
